@@ -124,11 +124,15 @@ Record pairing := mkP {
   p_id : bytes;                  (* pairing id = advertising id, 6 bytes (the dict key of controller.pairings) *)
   p_key : option key;            (* _broadcast_decryption_key *)
   p_sn : option N;               (* description (None: no advertisement/cache yet) and its state_num *)
+  p_psn : option N;              (* _accessories_state.state_num: the persisted copy (restored after a restart) *)
   p_chars : list (N * fmt)       (* accessories.aid(1): (iid, format) in database order *)
 }.
 
 Definition with_sn (p : pairing) (n : N) : pairing :=
-  mkP (p_id p) (p_key p) (Some n) (p_chars p).
+  mkP (p_id p) (p_key p) (Some n) (p_psn p) (p_chars p).
+
+Definition with_psn (p : pairing) (x : option N) : pairing :=
+  mkP (p_id p) (p_key p) (p_sn p) x (p_chars p).
 
 Fixpoint find_char (iid : N) (cs : list (N * fmt)) : option fmt :=
   match cs with
@@ -269,11 +273,65 @@ Definition accepted := accepted_w 98.
 Definition calls_for (i : bytes) (cl : list call) : list call :=
   filter (fun x => beq_bytes (fst (fst (fst x))) i) cl.
 
+(* ---- the other writers of the state number --------------------------------
+   The stored number lives in two places: description.state_num (p_sn, what
+   _async_notification reads and writes) and _accessories_state.state_num (p_psn,
+   persisted in the characteristic cache and restored by a restart).  Besides an
+   accepted broadcast the following operations write them:
+     OPopulate i n   BlePairing._populate_char_values: description.state_num := n
+                     (the accessory's protocol parameters read over a connection)
+     OUpdate i n     BlePairing._update_state_num(n) (disconnected-events poll,
+                     GSN carried by a response): both copies := n
+     OPlain i n      a well-formed regular (type 0x06, UNAUTHENTICATED) advertisement with
+                     an unchanged config number: description replaced, both copies := n
+     ORestart        process restart: every pairing is rebuilt from the cache;
+                     description := from_cache(persisted) when the persisted number is
+                     truthy, else None
+   OPopulate/OUpdate need a description (the code dereferences it); without one the
+   model leaves the pairing alone (not generated by the harness). *)
+Inductive op :=
+| OAdv (f : frame)
+| OPopulate (i : bytes) (n : N)
+| OUpdate (i : bytes) (n : N)
+| OPlain (i : bytes) (n : N)
+| ORestart.
+
+Fixpoint upd_pairing (g : pairing -> pairing) (c : ctrl) (i : bytes) : ctrl :=
+  match c with
+  | [] => []
+  | p :: r => if beq_bytes (p_id p) i then g p :: r else p :: upd_pairing g r i
+  end.
+
+Definition populate_p (n : N) (p : pairing) : pairing :=
+  match p_sn p with Some _ => with_sn p n | None => p end.
+Definition update_p (n : N) (p : pairing) : pairing :=
+  match p_sn p with Some _ => with_psn (with_sn p n) (Some n) | None => p end.
+Definition plain_p (n : N) (p : pairing) : pairing := with_psn (with_sn p n) (Some n).
+Definition restart_p (p : pairing) : pairing :=
+  mkP (p_id p) (p_key p)
+      (match p_psn p with Some n => if N.eqb n 0 then None else Some n | None => None end)
+      (p_psn p) (p_chars p).
+
+Definition apply_w (w : nat) (c : ctrl) (o : op) : ctrl * outcome * list call :=
+  match o with
+  | OAdv f => detect_w w c f
+  | OPopulate i n => (upd_pairing (populate_p n) c i, OOtherType, [])
+  | OUpdate i n => (upd_pairing (update_p n) c i, OOtherType, [])
+  | OPlain i n => (upd_pairing (plain_p n) c i, OOtherType, [])
+  | ORestart => (map restart_p c, OOtherType, [])
+  end.
+Definition apply := apply_w 98.
+
+Definition final_ops_w (w : nat) (c : ctrl) (h : list op) : ctrl :=
+  fold_left (fun c o => fst (fst (apply_w w c o))) h c.
+Definition final_ops := final_ops_w 98.
+
 (* ---- outside the property's quantifier: the plain (type 0x06) advertisement ----
    A well-formed regular advertisement for id i with an unchanged config number
    replaces the description, hence the stored state number, by the advertised one
    (AbstractPairing._async_description_update).  It is not authenticated.  Used only
-   for the observation bcast_plain_adv_rollback in Proofs/BcastHist.v. *)
+   for the observation bcast_plain_adv_rollback in Proofs/BcastHist.v.
+   (= OPlain restricted to the description copy; kept for that Example.) *)
 Fixpoint plain_adv (c : ctrl) (i : bytes) (sn : N) : ctrl :=
   match c with
   | [] => []
